@@ -50,6 +50,10 @@ ALPHA = [
     ("eom_pulse", "g2", 52, 0.0, 0.0, "min-delay", False),
     ("disable_eom", "g2", False),
     ("add", C52, "g2"),
+    ("add", C52, "l2"),
+    ("target", "q1", "l2"),
+    ("config_dmm", "m2", "dmm_1"),
+    ("add_dmm", ["C", 52, -1.0], "dmm_1"),
     ("measure", "ground-rydberg"),
     ("measure", "XY"),
     ("declare_var", "x"),
